@@ -179,6 +179,8 @@ def run(ctx):
     ]
     for c in corner:
         cases.append((c, dict(kind="corner")))
+    for c in sg.NULL_NS_CORPUS:
+        cases.append((c, None))
     # witnesses of the defects found so far (fixed ones stay as regression cases; the numeric-string one is a known finding)
     cases.append(([{"type": "record", "name": "A", "fields": []}, {"type": "fixed", "name": "A", "size": 1}],
                   dict(kind="duplicate-name", path=[1], name="A", across_top_level_union_members=True)))
@@ -226,7 +228,7 @@ def run(ctx):
         if r != m:
             # does the implementation violate the statement on this input?
             if mut is None:
-                bad = not r.startswith("ok:")
+                bad = True          # a valid schema: the model's answer is the specification's (C11_accepts, C13_spec)
             elif mut["kind"] == "corner":
                 bad = False
             else:
